@@ -212,16 +212,22 @@ def dec2ddm(dec):""", note='sign flag dropped in dec2dms: wrong for -1 < x < 0')
     for i in range(1000):""", new="""    cos_two_sigma_m = 0
     for i in range(5):""", note='lambda iteration cap 1000 -> 5 (long lines only)'),
     dict(id='vi-atan2-swap', props=['C05'], file='geodepy/geodesy.py',
-         old="""    azimuth2to1 = degrees(atan2(cos(u1)*sin(lon),
+         old="""        2*atan2(sin((u1 + u2)/2)*sin(lon/2),
+                cos((u2 - u1)/2)*cos(lon/2)))) % 360""",
+         new="""        2*atan2(cos((u2 - u1)/2)*cos(lon/2),
+                sin((u1 + u2)/2)*sin(lon/2)))) % 360""", note='atan2 arguments swapped in the reverse azimuth'),
+    dict(id='vi-revaz-two-formulae', props=['C05'], file='geodepy/geodesy.py',
+         old="""    azimuth2to1 = (azimuth1to2 + 180 + degrees(
+        2*atan2(sin((u1 + u2)/2)*sin(lon/2),
+                cos((u2 - u1)/2)*cos(lon/2)))) % 360""",
+         new="""    azimuth2to1 = degrees(atan2(cos(u1)*sin(lon),
                                 (-sin(u1)*cos(u2)
                                  + cos(u1)*sin(u2)*cos(lon)))) + 180""",
-         new="""    azimuth2to1 = degrees(atan2((-sin(u1)*cos(u2)
-                                 + cos(u1)*sin(u2)*cos(lon)),
-                                cos(u1)*sin(lon))) + 180""", note='atan2 arguments swapped in the reverse azimuth'),
+         note='baseline defect restored: reverse azimuth by its own cancelling formula (noise on sub-metre lines)'),
     dict(id='vi-coincide-tol', props=['C05'], file='geodepy/geodesy.py', old='    tolerance = 0.0000000001', new='    tolerance = 0.000001',
          note='coincidence shortcut 1e-10 -> 1e-6 deg (0.1 m lines return 0)'),
     dict(id='vi-no-180', props=['C05'], file='geodepy/geodesy.py',
-         old="                                 + cos(u1)*sin(u2)*cos(lon)))) + 180", new="                                 + cos(u1)*sin(u2)*cos(lon))))",
+         old="    azimuth2to1 = (azimuth1to2 + 180 + degrees(", new="    azimuth2to1 = (azimuth1to2 + degrees(",
          note='+180 dropped from the reverse azimuth'),
     dict(id='vi-semimin-grs80', props=['C05'], file='geodepy/geodesy.py', old="    ell_dist = ellipsoid.semimin*a * (sigma - delta_sigma)",
          new="    ell_dist = grs80.semimin*a * (sigma - delta_sigma)", note='distance scaled with the default ellipsoid'),
